@@ -192,17 +192,12 @@ def _boundary(arg):
 # --- fault: model file absent --------------------------------------------------------
 _CHILD = r"""
 import sys, os, json
-sys.path.insert(0, {verif!r}); sys.path.insert(0, {repo!r})
-_real = os.path.exists
-def _exists(p):
-    if str(p).replace(os.sep, "/").endswith("models/model.pbz"):
-        return False
-    return _real(p)
-os.path.exists = _exists
+# the fault is made real: the library is imported from a scratch copy of the package that has no model file
+os.environ["QAV_REPO"] = {scratch!r}
+sys.path.insert(0, {verif!r}); sys.path.insert(0, {scratch!r})
 import logging; logging.disable(logging.CRITICAL)
 from qav import core
 m = core.load_repo()
-os.path.exists = _real
 from ctparse.scorer import DummyScorer
 out = {{"default_scorer": type(m._DEFAULT_SCORER).__name__, "fails": [], "n": 0, "nt": 0}}
 if isinstance(m._DEFAULT_SCORER, DummyScorer):
@@ -217,13 +212,27 @@ print("@@RESULT@@" + json.dumps(out))
 """
 
 
+def _scratch_without_model():
+    import shutil
+    import tempfile
+    d = tempfile.mkdtemp(prefix="qav-nomodel-")
+    shutil.copytree(os.path.join(core.REPO, "ctparse"), os.path.join(d, "ctparse"),
+                    ignore=lambda src, names: [n for n in names if n == "__pycache__" or n.endswith(".pbz")])
+    return d
+
+
 def model_absent_batch(pid, cases):
     acc = core.Acc(pid)
-    code = _CHILD.format(verif=core.VERIF, repo=core.REPO)
-    env = dict(os.environ)
-    env["PYTHONHASHSEED"] = "0"
-    p = subprocess.run([sys.executable, "-W", "ignore", "-c", code], input=json.dumps(cases),
-                       capture_output=True, text=True, env=env, timeout=1800)
+    import shutil
+    scratch = _scratch_without_model()
+    try:
+        code = _CHILD.format(verif=core.VERIF, scratch=scratch)
+        env = dict(os.environ)
+        env["PYTHONHASHSEED"] = "0"
+        p = subprocess.run([sys.executable, "-W", "ignore", "-c", code], input=json.dumps(cases),
+                           capture_output=True, text=True, env=env, timeout=1800)
+    finally:
+        shutil.rmtree(scratch, ignore_errors=True)
     line = [l for l in p.stdout.splitlines() if l.startswith("@@RESULT@@")]
     if p.returncode != 0 or not line:
         # the import itself failing without the model is a finding about the fallback, but
